@@ -55,6 +55,23 @@ def main():
     a = ap.parse_args()
     patch, dm = os.path.abspath(a.patch), os.path.abspath(a.demo)
     out = {"patch": patch}
+    # the patch was written against an older HEAD of /repo: if it does not apply any more, merge it (3-way) in a scratch
+    # worktree and continue with the resulting diff against the current HEAD
+    if sh(f"git -C /repo apply --check {patch}").returncode != 0:
+        wt = tempfile.mkdtemp(prefix="evalrebase-", dir="/tmp")
+        os.rmdir(wt)
+        sh(f"git -C /repo worktree add --detach {wt} HEAD -q")
+        try:
+            r = sh(f"git -C {wt} apply --3way {patch}")
+            if r.returncode != 0:
+                print("patch cannot be merged onto the current HEAD:", r.stderr[-400:])
+                return 2
+            rebased = patch.replace(".diff", ".rebased.diff")
+            open(rebased, "w").write(sh(f"git -C {wt} diff HEAD").stdout)
+            patch = rebased
+            out["rebased"] = rebased
+        finally:
+            sh(f"git -C /repo worktree remove --force {wt}")
     if not a.skip_validate:
         wt = tempfile.mkdtemp(prefix="evalseed-", dir="/tmp")
         os.rmdir(wt)
